@@ -212,6 +212,13 @@ PROPS["C14"] = {
     ],
 }
 
+MIRI_RUN = {"engine": "vrun", "profile": "tiny", "procs": 16, "cases_per_proc": 10, "timeout_s": 2400}
+for _p, _why in (("C05", "retry-delay helper thread + oneshot wake-up under Miri's data-race detector"),
+                 ("C09", "World ownership through catch_unwind / Arc conversions"),
+                 ("C10", "unwinding through the async state machines with String / &str / custom / integer payloads; payload ownership")):
+    PROPS[_p]["miri"] = dict(MIRI_RUN)
+    PROPS[_p]["assumptions"] = PROPS[_p]["assumptions"] + [f"thorough tier adds a Miri shard (160 small cases, feature set without `tracing`): {_why}; a Miri diagnostic is reported as a violation"]
+
 NOT_APPLICABLE = {}
 
 ENGINES = [
